@@ -931,6 +931,10 @@ def run_homo(ck, rng, dn, thorough):
 
 # ------------------------------------------------------------------------------- driver
 def run(ck):
+    if ck.shard == 0:
+        # repeat-call monitor (shared, added by the framework owner): history / reused-object / memory-layout independence
+        from .. import repeat
+        repeat.run(ck, PID, repeat.table(PID, ck.rng("repeat")))
     thorough = ck.tier == "thorough"
     for dn in ("f64", "f32"):
         run_knn(ck, ck.rng("knn" + dn), dn, thorough)
